@@ -1480,10 +1480,13 @@ def sensors_battery():
                     return ret.strip()
         return None
 
+    try:
+        supplies = os.listdir(POWER_SUPPLY_PATH)
+    except FileNotFoundError:
+        # the kernel has no power supply class at all
+        return None
     bats = [
-        x
-        for x in os.listdir(POWER_SUPPLY_PATH)
-        if x.startswith('BAT') or 'battery' in x.lower()
+        x for x in supplies if x.startswith('BAT') or 'battery' in x.lower()
     ]
     if not bats:
         return None
